@@ -331,5 +331,19 @@ def run(ctx):
 
 def replay(ctx, path):
     case = json.load(open(path))
-    print(json.dumps(case, indent=1)[:2000])
+    comp = drive.get_compiler("stmt")
+    _JOB.update(comp=comp, env=prog.Env(comp), budget=512)
+    for kind, sp, variant, spec in all_items():
+        if spec.text == case.get("program"):
+            r = work((kind, sp, variant, spec))
+            print(json.dumps({k: v for k, v in r.items() if k != "text"}, indent=1, default=str)[:2500])
+            bad = r["status"] in ("disagree", "unreadable", "not-an-operand") or r.get("bindings") or {k: v for k, v in (r.get("static") or {}).items() if k != "linearity"}
+            if r["status"] == "disagree" and r.get("explained_by_fresh_reads") and "KF-reg-read-after-own-write-stale" in ctx.known and not r.get("bindings"):
+                print("KNOWN-FINDING: property=%s KF-reg-read-after-own-write-stale" % ctx.pid)
+                return 0
+            if bad:
+                print("VIOLATION property=%s replay=%s" % (ctx.pid, path))
+                return 1
+            return 0
+    print("program not in the alphabet any more:", case.get("program"))
     return 0
